@@ -85,14 +85,33 @@ def main(tier, seed):
     NR = 80 if tier == "quick" else 6000
     for i in range(NR):
         n, m = rng.randint(3, 9), rng.randint(1, 4)
-        X, D0 = tie_free_points(rng, n, m, "squared_euclidean")
+        arr = None
+        if i % 4 == 3:
+            # narrow integer feature arrays (raw bytes / small counts): legal input, the metrics must not wrap around
+            dt = rng.choice([np.uint8, np.int8, np.int16])
+            lo, hi = (0, 255) if dt == np.uint8 else ((-100, 100) if dt == np.int8 else (-3000, 3000))
+            for _ in range(50):
+                Xi = [[rng.randint(lo, hi) for _ in range(rng.randint(2, 6))] for _ in range(1)]
+                dimn = len(Xi[0])
+                Xi = [[rng.randint(lo, hi) for _ in range(dimn)] for _ in range(n + m)]
+                sq = [sum((a - b) ** 2 for a, b in zip(Xi[p], Xi[q])) for p in range(n) for q in range(p + 1, n + m)]
+                if len(set(sq)) == len(sq) and min(sq) > 0:
+                    break
+            else:
+                continue
+            X = [list(map(float, r)) for r in Xi]
+            arr = np.array(Xi, dtype=dt)
+            stats["narrow_int_groups"] = stats.get("narrow_int_groups", 0) + 1
+        else:
+            X, D0 = tie_free_points(rng, n, m, "squared_euclidean")
         if X is None:
             continue
         labels = gen_labels(rng, n)
         runs = {}
         ranks = {}
         for metric in FAMILY:
-            it = Instance("feat", X, labels, metric_matrix(metric, X), 0, m, metric)
+            it = Instance("feat", X, labels, metric_matrix(metric, X, arr), 0, m, metric)
+            it.Xarr = arr
             ranks[metric] = rank_matrix(it.D, n, n + m)
             try:
                 o, s = impl_fit(it); p, _ = impl_predict(o, it)
